@@ -1403,15 +1403,20 @@ def sum16 (b : Bytes) : Bytes := be16 ((b.foldl (fun acc x => acc + x.toNat) 0) 
 
 /-- unprotected key material (usage octet 0): `PlainSecretParams::try_from_reader` followed by
 `PlainSecretParams::to_writer`, for the algorithms the model decides.  v3/v4 material carries a
-two-octet checksum (over the *re-serialised* material) and must be consumed completely; v6
+two-octet checksum (over the stored octets; before the repair of D8e over the *re-serialised*
+material) and must be consumed completely; what is written back is the library's own encoding; v6
 material has neither (and what follows it is ignored, the reader being a slice).
 `none` = rejected, `some none` = not modelled (RSA / opaque material without `trust`). -/
 def plainNorm (trust : Bool) (ver : Byte) (pp : PubParams) (d : Bytes) : Option (Option Bytes) :=
   let old := isV3 ver || ver.toNat = 4
   let finish (raw rest : Bytes) : Option (Option Bytes) :=
     if old then
+      -- the octets as stored (D8e repaired: the checksum covers these, not the re-serialisation)
+      let stored := d.take (d.length - rest.length)
       match take 2 rest with
-      | some (ck, r) => if ck = sum16 raw ∧ r.isEmpty then some (some (raw ++ ck)) else none
+      | some (ck, r) =>
+        if ck = sum16 (if Gen.fixD8eChecksumOverStoredOctets = 1 then stored else raw) ∧ r.isEmpty
+        then some (some (raw ++ sum16 raw)) else none
       | none => none
     else some (some raw)
   match pp with
